@@ -4,8 +4,8 @@
    * `rewrite`      = index_re.sub(resolve_indexes, expression) with index_re = \[\s*(.+?)?\s*\]
                       as a total function on Latin-1 strings (first exception aborts, left to right); a match whose text
                       contains no backtick is returned unchanged (fix 24bdfbd);
-   * `resolve_group`= the callback `resolve_indexes` (split on ':', backticked parts through the span,
-                      int() of the others, +1 on a Python-int stop, step kept verbatim);
+   * `resolve_group`= the callback `resolve_indexes` (split on ':', backticked items through the span and +1 on a label's
+                      Python-int stop, plain items and the step kept verbatim — fix 967c56d);
    * `eval_M`       = eval(): rewriting only if a backtick occurs, namespace assembly
                       (helper table < container variables < caller locals; deep copy of the package table unless the
                       caller passes `builtins=`), NameError -> AttributeError naming the name.
@@ -198,6 +198,11 @@ Section Resolve.
          | Ret l => Ret (Z_to_string (snd (if is_stop then bump (stop_of l) else start_of l)))
          end.
 
+  (* fix 967c56d: only an item with a backticked label is resolved; a plain item of a mixed slice is a position, left exactly
+     as written (after str.strip()); hence only a LABEL's stop is made inclusive *)
+  Definition render_item (part : string) (is_stop : bool) : outcome string :=
+    if has_char ch_tick part then render_part part is_stop else Ret part.
+
   (* resolve_indexes(match) given match.group(1) = g *)
   Definition resolve_group (g : string) : outcome string :=
     let parts := split_on ch_colon g in
@@ -208,10 +213,10 @@ Section Resolve.
          | start :: stop :: step =>
              let start := strip is_py_space start in
              let stop := strip is_py_space stop in
-             match render_part start false with
+             match render_item start false with
              | Raise e => Raise e
              | Ret a =>
-                 match render_part stop true with
+                 match render_item stop true with
                  | Raise e => Raise e
                  | Ret b =>
                      match map (strip is_py_space) step with
